@@ -7,6 +7,8 @@ import (
 	"time"
 
 	"verif/internal/core"
+
+	"github.com/go-i2p/common/data"
 )
 
 // Step 0 of C18: first-operation histories on FRESH values. Steps 1 and 2 judge the steady state (every
@@ -174,6 +176,8 @@ func c18EditableFields(root reflect.Value, prefix string, depth int) []c18Edit {
 			out = append(out, c18Edit{name, get})
 		case fv.Kind() == reflect.Ptr && !fv.IsNil() && fv.Type().Elem().Kind() == reflect.Array && fv.Type().Elem().Elem().Kind() == reflect.Uint8:
 			out = append(out, c18Edit{name, get})
+		case fv.Type() == reflect.TypeOf((*data.Mapping)(nil)) && !fv.IsNil():
+			out = append(out, c18Edit{name, get})
 		case depth > 0 && fv.Kind() == reflect.Ptr && !fv.IsNil() && fv.Type().Elem().Kind() == reflect.Struct && f.Anonymous:
 			for _, e := range c18EditableFields(fv, name+".", depth-1) {
 				e := e
@@ -187,6 +191,15 @@ func c18EditableFields(root reflect.Value, prefix string, depth int) []c18Edit {
 func c18ApplyEdit(f reflect.Value) bool {
 	if !f.CanSet() {
 		return false
+	}
+	if f.Type() == reflect.TypeOf((*data.Mapping)(nil)) {
+		// another mapping altogether: other host family, other keys
+		m, err := data.GoMapToMapping(map[string]string{"host": "2001:db8::7", "port": "7", "caps": "6", "zz": "edited"})
+		if err != nil || m == nil {
+			return false
+		}
+		f.Set(reflect.ValueOf(m))
+		return true
 	}
 	switch f.Kind() {
 	case reflect.Slice:
